@@ -10,6 +10,13 @@ edge-oriented wrapper has its own section (it adds its pseudo-steps to `iteratio
 edges are adjacent, runs no search and consults no limit).  Each sub-search of the k-shortest-path
 algorithms is a `run_vertex_oriented` call, so the theorems apply to it; how a limit hit of a
 sub-search surfaces is C13's (`Props/C13.lean`).
+
+Modelled rather than verified: `IterationsLimit` computes `iteration + 1 > limit` in `u64`:
+`terminate_search(_, 0, u64::MAX)` wraps to `0 > limit`, false, in a release build (and panics in a
+debug build), where `(TermM.iters limit).fires 0 (2^64 - 1) = some true` over the unbounded naturals
+of the model.  Unreachable from `run_a_star`, whose counter starts at 0 and grows by one per
+expansion (2^64 expansions), and outside the builder's reach; the limits `u64::MAX`, `usize::MAX` and 0
+themselves are generated (extreme-value stream of harness/src/searchprops.rs).
 -/
 import Compass.Proofs.Num
 import Compass.Model.Instance
